@@ -446,3 +446,85 @@ def c08_h(ctx):
               match(ex.raw(n.value), pattern('_x.reshape((-1, self.dim))')) is not None]
         ctx.check(bool(rs), f, 'query reshaped to rows of dim columns', 'x.reshape((-1, dim))',
                   'the query is not reshaped to (n, dim)', fn=f, node=rs[0] if rs else f.node)
+
+
+@obligation('C08-i', 'T2 T3 T5', 'the numerical gradient is a central difference of untouched '
+            'function values and is zero when a stencil value is -inf', floor=5,
+            necessary='a difference quotient taken across the jump to -inf (or over altered '
+                      'values) is not the derivative of the log density at a point next to the '
+                      'support boundary')
+def c08_i(ctx):
+    ng = ctx.fn('elfi.methods.utils:numgrad')
+    ex = ctx.ex(ng)
+    g = cfg_of(ng)
+    grads = ctx.calls(ng, 'np.gradient(*_)')
+    if len(grads) != 1:
+        raise AnchorMissing('np.gradient call in numgrad')
+    gc = grads[0]
+    a0 = gc.args[0]
+    if not isinstance(a0, ast.Name):
+        ctx.undecided('np.gradient is not applied to a named array')
+    fname = a0.id
+    # the values come from one batched call of the function on the stencil
+    defs = [n for n in own_nodes(ng.node) if isinstance(n, ast.Assign) and
+            isinstance(n.targets[0], ast.Name) and n.targets[0].id == fname]
+    ok = bool(defs) and any(match(ex.raw(d.value), pattern('{}(_X)'.format(ng.params[0])))
+                            is not None for d in defs)
+    ctx.check(ok, ng, 'values are fn evaluated on the stencil', 'f = fn(X)',
+              'the differentiated values are not fn(stencil)', fn=ng, node=defs[0] if defs else gc)
+    # no element of the value array is overwritten before it is differentiated
+    writes = [n for n in own_nodes(ng.node)
+              if isinstance(n, (ast.Assign, ast.AugAssign)) and
+              any(isinstance(t, ast.Subscript) and isinstance(t.value, ast.Name) and
+                  t.value.id == fname
+                  for t in (n.targets if isinstance(n, ast.Assign) else [n.target]))]
+    ctx.check(not writes, ng, 'function values are not altered before differencing',
+              'no store into the value array',
+              'elements of the value array are overwritten before np.gradient: the difference '
+              'quotient is taken over altered values', fn=ng, node=writes[0] if writes else gc)
+    # -inf anywhere on the stencil -> zero gradient, returned before differencing
+    zr = [r for r in returns(ng) if match_any(ex.term(r.value), ('np.zeros(_d)',
+                                                                   'np.zeros_like(_d)'))
+          is not None and not ctx.must_precede(ng, [ctx_stmt(gc)], r)]
+    okz = False
+    for r in zr:
+        gs = ctx.guards(ng, r)
+        has_flag = any(pol and t in (('param', 'replace_neg_inf'), ('name', 'replace_neg_inf'))
+                       for (t, pol, _) in gs)
+        has_inf = any(pol and match_any(t, ('np.any(np.isneginf(_f))', 'np.isneginf(_f).any()',
+                                            'np.any(np.isinf(_f))', 'np.isinf(_f).any()'))
+                      is not None for (t, pol, _) in gs)
+        okz = okz or (has_flag and has_inf)
+    ctx.check(okz, ng, '-inf on the stencil gives a zero gradient',
+              'if replace_neg_inf and any(isneginf(f)): return zeros',
+              'a stencil value of -inf does not lead to a zero gradient before differencing',
+              fn=ng, node=zr[0] if zr else gc)
+    # central stencil: offsets (i - 1) * h for i in range(3), middle row returned
+    loops = [n for n in own_nodes(ng.node) if isinstance(n, ast.For) and
+             match(ex.raw(n.iter), pattern('range(3)')) is not None]
+    okc = False
+    if loops:
+        iv = loops[0].target.id if isinstance(loops[0].target, ast.Name) else None
+        for n in ast.walk(loops[0]):
+            if isinstance(n, ast.BinOp) and isinstance(n.op, ast.Mult):
+                t = ex.raw(n)
+                if match_any(t, ('({} - 1) * _h'.format(iv),)) is not None:
+                    okc = True
+    ctx.check(okc, ng, 'symmetric three-point stencil', 'offsets (i - 1) * h, i = 0, 1, 2',
+              'the stencil offsets are not -h, 0, +h', fn=ng, node=loops[0] if loops else gc)
+    rr = [r for r in returns(ng) if r not in zr]
+    okm = len(rr) == 1 and match(ex.term(rr[0].value), pattern('_g[1, :]')) is not None and \
+        contains(ex.term(rr[0].value), 'np.gradient(*_)')
+    ctx.check(okm, ng, 'derivative read at the centre point', 'np.gradient(f, h, axis=0)[1, :]',
+              'the returned row of np.gradient is not the centre of the stencil', fn=ng,
+              node=rr[0] if rr else gc)
+    kw = dict((k.arg, ex.raw(k.value)) for k in gc.keywords)
+    ctx.check(kw.get('axis') == ('const', 0), ng, 'differences along the stencil axis', 'axis=0',
+              'np.gradient does not difference along the stencil axis', fn=ng, node=gc)
+
+
+def ctx_stmt(node):
+    n = node
+    while n is not None and not isinstance(n, ast.stmt):
+        n = getattr(n, '_parent', None)
+    return n
